@@ -194,6 +194,9 @@ func genTTHParams(r *rand.Rand) tthParams {
 }
 
 // c06Check runs one parameter set through both encoders and all decoders.
+// c06ForcePre makes c06Check put that many unflushed bytes (earlier frames of a pipeline) in front of the frame.
+var c06ForcePre int
+
 func c06Check(cs *drv.Case, p tthParams, payloadLen int, sched int) {
 	// the frame is a function of the parameters: whatever the context argument carries (values, metainfo
 	// entries that resemble header keys, a deadline, a cancelled context) must not show in it
@@ -210,6 +213,9 @@ func c06Check(cs *drv.Case, p tthParams, payloadLen int, sched int) {
 	sink := &doubles.Sink{}
 	dw := bufiox.NewDefaultWriter(sink)
 	pre := cs.R.Intn(3) * 7
+	if c06ForcePre > 0 {
+		pre = c06ForcePre
+	}
 	if pre > 0 {
 		b, _ := dw.Malloc(pre)
 		for i := range b {
@@ -522,6 +528,26 @@ func monC06(c *drv.Ctx) {
 		if cs.WantSample() && cs.Idx%401 == 3 {
 			cs.Sample(p.full())
 		}
+	})
+	// (1a) payloads far larger than any buffer the writer may want to keep: the total-length field that Encode
+	// returned is filled in after the payload was written, and must still reach the sink with the frame
+	bigPayloads := []int{1<<20 + 1, 3 << 20, 5<<20 + 3}
+	c.Stage("large-payloads", int64(len(bigPayloads))*c.Pick(2, 8), true, func(cs *drv.Case) {
+		p := genTTHParams(cs.R)
+		pl := bigPayloads[cs.Idx%int64(len(bigPayloads))]
+		cs.Desc = p.desc()
+		if (cs.Idx/int64(len(bigPayloads)))%2 == 1 {
+			// the frame is the last of a pipeline: about as much is already waiting in the writer, and the
+			// frame's own payload is small
+			c06ForcePre = pl - 1 - cs.R.Intn(40)
+			pl = cs.R.Intn(300)
+			defer func() { c06ForcePre = 0 }()
+			cs.C.Obs("frames behind more than 1 MiB of unflushed bytes", 1)
+		} else {
+			cs.C.Obs("frames with a payload above 1 MiB", 1)
+		}
+		c06Check(cs, p, pl, cs.R.Intn(doubles.NSched))
+		cs.Count(true, "big", pl, cs.Idx)
 	})
 	// (1b) a writer that refuses its k-th call, for every k: no complete frame can have been written, so
 	// Encode must report an error (and not panic); the error it reports must not hide the writer's refusal as success
